@@ -6,7 +6,8 @@
 // the literal stream), calls the REAL builtins json / unjson / msgpack / unmsgpack and records
 //
 //	json=<hex of (json v)>            compared with the model's to_json           (correspondence)
-//	std=<tree read by encoding/json>  compared with the specification's tree_of v (property)
+//	std=<tree read by encoding/json>  number tokens as written; compared with the model's json_parse
+//	stdv=<the same, numbers by value> compared with the specification's tree_of v (property)
 //	unjson=<value|CRASH|CORRUPT>      compared with of_tree (model) and norm v    (property)
 //	unmsgpack=<...>                   same, through msgpack
 //	codec=<1|0>                       the Go tree read from the msgpack bytes equals the one read from the JSON
@@ -60,6 +61,7 @@ type obs struct {
 	json      []byte
 	jsonOK    bool
 	std       string
+	stdv      string
 	unjson    string
 	unmsgpack string
 	codec     string
@@ -70,7 +72,7 @@ func (o obs) String() string {
 	if o.jsonOK {
 		j = hexs(o.json)
 	}
-	return "json=" + j + ";std=" + o.std + ";unjson=" + o.unjson + ";unmsgpack=" + o.unmsgpack + ";codec=" + o.codec
+	return "json=" + j + ";std=" + o.std + ";stdv=" + o.stdv + ";unjson=" + o.unjson + ";unmsgpack=" + o.unmsgpack + ";codec=" + o.codec
 }
 
 func observedValue(r lib.Result) string {
@@ -90,7 +92,7 @@ func observedValue(r lib.Result) string {
 }
 
 func observe(env *zygo.Zlisp, x zygo.Sexp) obs {
-	o := obs{std: "-", unjson: "-", unmsgpack: "-", codec: "-"}
+	o := obs{std: "-", stdv: "-", unjson: "-", unmsgpack: "-", codec: "-"}
 	env.AddGlobal("v", x)
 	r := lib.Eval(env, "(json v)", budget)
 	raw, isRaw := r.Val.(*zygo.SexpRaw)
@@ -99,7 +101,7 @@ func observe(env *zygo.Zlisp, x zygo.Sexp) obs {
 	}
 	o.jsonOK = true
 	o.json = []byte(raw.Val)
-	o.std = stdTree(o.json)
+	o.std, o.stdv = stdTree(o.json)
 	env.AddGlobal("j", raw)
 	o.unjson = observedValue(lib.Eval(env, "(unjson j)", budget))
 	m := lib.Eval(env, "(msgpack v)", budget)
@@ -198,16 +200,10 @@ func expectTree(v *gv, sb *strings.Builder) {
 			sb.WriteString("F")
 		}
 	case 'I':
-		sb.WriteString("#" + hexs([]byte(fmt.Sprintf("%d", v.i))))
+		fmt.Fprintf(sb, "I%d", v.i)
 	case 'D':
 		if finite(v.f) {
-			t := floatTok(v.f, v.sci)
-			if a := math.Abs(v.f); a != 0 && (a < 1e-6 || a >= 1e21) {
-				t = floatTok(v.f, true)
-			} else if !strings.ContainsAny(t, ".eE") {
-				t += ".0"
-			}
-			sb.WriteString("#" + hexs([]byte(t)))
+			fmt.Fprintf(sb, "D%d", math.Float64bits(v.f))
 		} else {
 			sb.WriteString("N")
 		}
@@ -267,8 +263,8 @@ func failure(v *gv, o obs) string {
 	}
 	var sb strings.Builder
 	expectTree(v, &sb)
-	if o.std != sb.String() {
-		if o.std == "ERR" {
+	if o.stdv != sb.String() {
+		if o.stdv == "ERR" {
 			return "std:ERR"
 		}
 		return "std:differs"
@@ -497,7 +493,8 @@ func (r *runner) quote(s string, tags ...string) {
 	}
 	r.seen[input] = true
 	q := zygo.SexpToJson(&zygo.SexpStr{S: s})
-	r.out.Case(input, "q="+hexs([]byte(q))+";std="+stdTree([]byte(q)), true, tags...)
+	std, _ := stdTree([]byte(q))
+	r.out.Case(input, "q="+hexs([]byte(q))+";std="+std, true, tags...)
 }
 
 func (r *runner) source(src string) {
